@@ -249,6 +249,56 @@ theorem replace_spec (s t : List Char) (p k : Nat) (hp : 1 ≤ p) (hlen : s.leng
   · rw [REPLACE_eq]; simp only [pyInt, h3, if_false]
     simp
 
+/-- every text is the concatenation of what lies before a position, `k` characters from it, and the rest:
+    `LEFT(s,p-1) & MID(s,p,k) & MID(s,p+k,LEN(s)) = s` for every `p ≥ 1` and `k ≥ 0` -/
+theorem mid_partition (s : List Char) (p k : Nat) (hp : 1 ≤ p) (hlen : s.length ≤ Gen.cellCharacterLimit) :
+    ∃ l m r, LEFT s (.int ((p : Int) - 1)) = .ok l ∧ MID s (.int p) (.int k) = .ok m ∧
+             MID s (.int ((p : Int) + k)) (.int s.length) = .ok r ∧ l ++ m ++ r = s := by
+  have h1 : ¬ ((p : Int) - 1 < 0) := by omega
+  have h2 : ¬ ((p : Int) + k < 1) := by omega
+  have h3 : ¬ ((p : Int) < 1) := by omega
+  have h4 : ¬ ((s.length : Int) < 0) := by omega
+  have h5 : ¬ ((k : Int) < 0) := by omega
+  refine ⟨s.take (p - 1), (s.drop (p - 1)).take k, s.drop (p - 1 + k), ?_, ?_, ?_, ?_⟩
+  · rw [LEFT_eq]; simp only [pyInt, h1, if_false]
+    have : ((p : Int) - 1).toNat = p - 1 := by omega
+    rw [this]
+  · rw [MID_eq _ _ _ hlen]; simp only [pyInt, h3, h5, if_false]
+    simp
+  · rw [MID_eq _ _ _ hlen]; simp only [pyInt, h2, h4, if_false]
+    have : ((p : Int) + k).toNat - 1 = p - 1 + k := by omega
+    rw [this, List.take_of_length_le]
+    simp
+  · rw [List.append_assoc, ← List.drop_drop, List.take_append_drop, List.take_append_drop]
+
+/-- replacing a stretch by itself changes nothing: `REPLACE(s,p,k,MID(s,p,k)) = s` -/
+theorem replace_mid_identity (s : List Char) (p k : Nat) (hp : 1 ≤ p) (hlen : s.length ≤ Gen.cellCharacterLimit) :
+    ∃ m, MID s (.int p) (.int k) = .ok m ∧ REPLACE s (.int p) (.int k) m = .ok s := by
+  have h3 : ¬ ((p : Int) < 1) := by omega
+  have h5 : ¬ ((k : Int) < 0) := by omega
+  have h6 : ¬ ((p : Int) < 1 ∨ (k : Int) < 0) := by omega
+  refine ⟨(s.drop (p - 1)).take k, ?_, ?_⟩
+  · rw [MID_eq _ _ _ hlen]; simp only [pyInt, h3, h5, if_false]
+    simp
+  · rw [REPLACE_eq]; simp only [pyInt, h6, if_false]
+    simp only [Int.toNat_natCast]
+    rw [List.append_assoc, ← List.drop_drop, List.take_append_drop, List.take_append_drop]
+
+/-- `LEN(LEFT(s,n)) = LEN(RIGHT(s,n)) = min(n, LEN(s))` and `LEN(MID(s,p,k)) = min(k, LEN(s)-(p-1))` -/
+theorem len_pieces (s : List Char) (n p k : Nat) (hp : 1 ≤ p) (hlen : s.length ≤ Gen.cellCharacterLimit) :
+    ∃ l r m, LEFT s (.int n) = .ok l ∧ RIGHT s (.int n) = .ok r ∧ MID s (.int p) (.int k) = .ok m ∧
+      l.length = min n s.length ∧ r.length = min n s.length ∧ m.length = min k (s.length - (p - 1)) := by
+  have h1 : ¬ ((n : Int) < 0) := by omega
+  have h3 : ¬ ((p : Int) < 1) := by omega
+  have h5 : ¬ ((k : Int) < 0) := by omega
+  refine ⟨s.take n, s.drop (s.length - n), (s.drop (p - 1)).take k, ?_, ?_, ?_, ?_, ?_, ?_⟩
+  · rw [LEFT_eq]; simp [pyInt, h1]
+  · rw [RIGHT_eq]; simp [pyInt, h1]
+  · rw [MID_eq _ _ _ hlen]; simp only [pyInt, h3, h5, if_false]; simp
+  · simp
+  · simp; omega
+  · simp
+
 /-- a count of 0 gives the empty text -/
 theorem count_zero_empty (s : List Char) (p : Nat) (hp : 1 ≤ p) (hlen : s.length ≤ Gen.cellCharacterLimit) :
     LEFT s (.int 0) = .ok [] ∧ RIGHT s (.int 0) = .ok [] ∧ MID s (.int p) (.int 0) = .ok [] := by
